@@ -50,45 +50,68 @@ where
     R: io::Read + ?Sized,
 {
     let mut result = 0;
-    let mut shift = 0;
+    let mut shift: u32 = 0;
     loop {
         let mut buf = [0];
         r.read_exact(&mut buf)?;
-        if shift == 127 && buf[0] != 0x00 && buf[0] != 0x01 {
+        let low_bits = (buf[0] & !CONTINUATION_BIT) as u128;
+        // Groups start at bit 0, 7, .., 126, 133, ..: the group at bit 126 has two
+        // bits left in a u128, later groups can only be padding.
+        let fits = if shift < 126 {
+            true
+        } else if shift == 126 {
+            low_bits <= 0x03
+        } else {
+            low_bits == 0
+        };
+        if !fits {
             while buf[0] & CONTINUATION_BIT != 0 {
                 r.read_exact(&mut buf)?;
             }
             return Err(Error::msg("nat overflow"));
         }
-        let low_bits = (buf[0] & !CONTINUATION_BIT) as u128;
-        result |= low_bits << shift;
+        if shift < 128 {
+            result |= low_bits << shift;
+        }
         if buf[0] & CONTINUATION_BIT == 0 {
             return Ok(result);
         }
-        shift += 7;
+        shift = shift.saturating_add(7);
     }
 }
 pub fn decode_int<R>(r: &mut R) -> Result<i128>
 where
     R: io::Read + ?Sized,
 {
-    let mut result = 0;
-    let mut shift = 0;
+    let mut result: i128 = 0;
+    let mut shift: u32 = 0;
     let size = 128;
     let mut byte;
     loop {
         let mut buf = [0];
         r.read_exact(&mut buf)?;
         byte = buf[0];
-        if shift == 127 && byte != 0x00 && byte != 0x7f {
+        let low_bits = (byte & !CONTINUATION_BIT) as i128;
+        // Groups start at bit 0, 7, .., 126, 133, ..: the group at bit 126 carries
+        // bit 126, the sign bit 127 and five copies of it; later groups can only
+        // repeat the sign.
+        let fits = if shift < 126 {
+            true
+        } else if shift == 126 {
+            low_bits >> 1 == 0 || low_bits >> 1 == 0x3f
+        } else {
+            low_bits == if result < 0 { 0x7f } else { 0 }
+        };
+        if !fits {
             while buf[0] & CONTINUATION_BIT != 0 {
                 r.read_exact(&mut buf)?;
             }
             return Err(Error::msg("int overflow"));
         }
-        let low_bits = (byte & !CONTINUATION_BIT) as i128;
-        result |= low_bits << shift;
-        shift += 7;
+        if shift < size {
+            result |= low_bits << shift;
+        }
+        shift = shift.saturating_add(7);
         if byte & CONTINUATION_BIT == 0 {
             break;
         }
